@@ -273,7 +273,39 @@ func C20(p *core.Program, r *core.Report) {
 			}
 		}
 	})
-	r.Check(okRepl, "table/"+fname(crt)+"/replaced", "each recomputation replaces the whole table (destinations without a path disappear)", p.Pos(crt.Pos()), "", "dtlsr.routingTable is not assigned the new map")
+	if !okRepl {
+		// or the table is updated in place and the stale entries are removed: cleared by a range-and-delete over the
+		// table, or the destination is deleted on the branch on which no path was found
+		isTable := func(v ssa.Value) bool {
+			ld, ok := core.Strip(v).(*ssa.UnOp)
+			return ok && core.IsField(ld.X, routingPkg, "DTLSR", "routingTable")
+		}
+		ranged := false
+		core.EachInstr(crt, func(in ssa.Instruction) {
+			if rg, ok := in.(*ssa.Range); ok && isTable(rg.X) {
+				ranged = true
+			}
+		})
+		core.EachInstr(crt, func(in ssa.Instruction) {
+			c, ok := in.(*ssa.Call)
+			if !ok {
+				return
+			}
+			b, isB := c.Common().Value.(*ssa.Builtin)
+			if !isB || b.Name() != "delete" || !isTable(c.Common().Args[0]) {
+				return
+			}
+			if ranged {
+				okRepl = true
+			}
+			for _, sc := range core.CallsTo(crt, "github.com/RyanCarrier/dijkstra.Graph.Shortest") {
+				if errNonNilGuard(core.DominatingConds(c.Block()), sc.(ssa.Value)) {
+					okRepl = true
+				}
+			}
+		})
+	}
+	r.Check(okRepl, "table/"+fname(crt)+"/replaced", "each recomputation replaces the whole table (destinations without a path disappear)", p.Pos(crt.Pos()), "", "dtlsr.routingTable is neither assigned a new map nor cleared / pruned of destinations without a path")
 
 	// ---- (4) arc cost shape
 	nArc := 0
